@@ -148,6 +148,13 @@ let () =
       let fl = List.sort compare (List.map item_s (flagged !st csec)) in
       st := compact !st csec chosen;
       Printf.printf "%s\t%s\n" id (String.concat ";" fl)
+    | id :: "K" :: csec :: rest ->
+      (* a real engine compaction: whatever disappeared must be allowed by the filter predicate *)
+      let csec = zi (int_of_string csec) in
+      let removed = (match rest with [] | [""] -> [] | c :: _ -> List.map item_p (split_on ';' c)) in
+      let bad = List.filter (fun it -> not (removable !st csec it)) removed in
+      st := compact !st csec removed;
+      Printf.printf "%s\t%s\n" id (if bad = [] then "ok" else "illegal:" ^ String.concat ";" (List.map item_s bad))
     | id :: "L" :: scan :: _ ->
       let scan = zi (int_of_string scan) in
       let n = List.length (List.filter (due scan) !st.tidx) in
